@@ -146,11 +146,18 @@ instance (c : Card) : Decidable c.Sane := by cases c <;> unfold Card.Sane <;> in
   * `cardSane` — a maximum number of values is -1 (the documented "unlimited") or non-negative.
     With `CardinalityMax( -5)` the object refuses every value but accepts the command line without
     the argument, while "at most -5 values" is not met by zero values
-    (`cardinality_unsound_without_cardSane` in Lemmas/RulesExample.lean). -/
+    (`cardinality_unsound_without_cardSane` in Lemmas/RulesExample.lean).
+  * `globKeys` — the keys of one handler constraint designate pairwise different arguments.
+    `Handler::validArguments()` refuses a constraint specification in which the same argument is
+    listed twice ("same argument key used twice in argument list") and normalises every listed key
+    to the argument's full key.  Without it an all-of constraint that lists one argument under two
+    spellings can never be met by a single use (`allOf_same_argument_twice` in
+    Lemmas/RulesExample.lean).  Only the completeness direction uses this clause. -/
 structure Cfg.WellFormed (cfg : Cfg) : Prop where
   disjoint : Disjoint cfg.table
   argKeys  : ∀ d ∈ cfg.args, ∀ c ∈ d.constraints, ∀ k ∈ c.2, ∃ j, Names cfg k j
   cardSane : ∀ d ∈ cfg.args, d.card.Sane
+  globKeys : ∀ g ∈ cfg.globals, g.keys.Pairwise (fun x y => ∀ d ∈ cfg.args, ¬ (x.eq d.key = true ∧ y.eq d.key = true))
 
 theorem table_getElem? (cfg : Cfg) (i : Nat) : cfg.table[i]? = (cfg.args[i]?).map (fun d => (d.key, d)) := by
   unfold Cfg.table; simp
@@ -302,6 +309,20 @@ theorem applyUses_uses {cfg : Cfg} : ∀ (us : List Use) (h h' : HState), applyU
     obtain ⟨h1, e1, e2⟩ := e
     obtain ⟨d, pend, cnt, st', s⟩ := applyUse_ok e1
     rw [ih h1 h' e2, s.uses']; simp
+
+theorem endChecks_ok {cfg : Cfg} {h h' : HState} (e : endChecks cfg h = .ok h') :
+    checkMandatoryCardinality cfg.args h.args = .ok () ∧ pendingCheckRequired h.pending = .ok () ∧
+    checkGlobals cfg.globals h.globals = .ok () ∧ h' = { h with lastArg := none } := by
+  unfold endChecks at e
+  simp only [bind_eq_ok] at e
+  obtain ⟨_, h1, _, h2, _, h3, e⟩ := e
+  cases e
+  exact ⟨h1, h2, h3, rfl⟩
+
+theorem evalUses_ok {cfg : Cfg} {h0 h : HState} {us : List Use} (e : evalUses cfg h0 us = .ok h) :
+    ∃ h1, applyUses cfg h0 us = .ok h1 ∧ endChecks cfg h1 = .ok h := by
+  unfold evalUses at e
+  simpa only [bind_eq_ok] using e
 
 /-- the part of the state that no rule changes -/
 structure Frame (cfg : Cfg) (h : HState) : Prop where
